@@ -99,6 +99,8 @@ func (g *core) render(c gengo.Context, parts []proto.Part) {
 			c.Render(snippet.Block(docComment(c, p.DocRef)))
 		case p.Results:
 			c.Render(snippet.Block(resultsComment(c)))
+		case p.Locate != "":
+			c.Render(snippet.Block(locateComment(c, p.Locate)))
 		case p.Bulk > 0:
 			var sb strings.Builder
 			sb.WriteString("\n\nvar " + p.Text + " = [...]string{\n")
@@ -159,6 +161,31 @@ func sharedExpose(ref string) snippet.Snippet {
 	s := snippet.PkgExpose(ref[:i], ref[i+1:])
 	sharedExposes[ref] = s
 	return s
+}
+
+// locateComment asks the context where a type of an imported package lives.
+func locateComment(c gengo.Context, ref string) string {
+	i := strings.LastIndex(ref, ".")
+	path, name := ref[:i], ref[i+1:]
+	own := c.Package("")
+	if own == nil || own.Pkg() == nil {
+		return "\n// LOCATED " + name + ": <no package>\n"
+	}
+	for _, ip := range own.Pkg().Imports() {
+		if ip.Path() != path {
+			continue
+		}
+		obj := ip.Scope().Lookup(name)
+		if obj == nil {
+			return "\n// LOCATED " + name + ": <no such object>\n"
+		}
+		lp := c.LocateInPackage(obj.Pos())
+		if lp == nil || lp.Pkg() == nil {
+			return "\n// LOCATED " + name + " in <unknown>\n"
+		}
+		return "\n// LOCATED " + name + " in " + lp.Pkg().Path() + "\n"
+	}
+	return "\n// LOCATED " + name + ": <not imported>\n"
 }
 
 // resultsComment asks the universe for the possible results of every function of the processed package.
